@@ -31,7 +31,9 @@ METHODS = ['GET', 'POST', 'OPTIONS', 'PUT', 'DELETE', 'HEAD', 'PATCH']
 EIOS = ['absent', '4', '3', 'empty', '44', 'repeated']
 TRANSPORTS = ['absent', 'polling', 'websocket', 'bogus', 'Polling', 'poll', 'socket']
 SIDS = ['absent', 'live-polling', 'live-upgraded', 'mid-upgrade', 'closed', 'unknown', 'rejected']
-KINDS = ['http', 'ws', 'ws-list', 'ws-noconn']
+KINDS = ['http', 'ws', 'ws-connlist', 'ws-list', 'ws-noconn']
+# a WebSocket upgrade whose Connection header is a token list (what Firefox sends)
+CONNLIST = [('Upgrade', 'websocket'), ('Connection', 'keep-alive, Upgrade')]
 # requests whose upgrade headers are not exactly those of a WebSocket upgrade
 ODD = {'ws-list': [('Upgrade', 'websocket, h2c'), ('Connection', 'Upgrade')],
        'ws-noconn': [('Upgrade', 'websocket')]}
@@ -54,8 +56,8 @@ def feasible(c):
     impl, cfg, sidk, method, kind, eio, tr, j = c
     if kind != 'http' and method != 'GET':
         return False
-    if kind in ODD and (eio not in ('4', 'absent') or j not in ('absent', 'x') or
-                        cfg.endswith('-str')):
+    if kind in ('ws-list', 'ws-noconn', 'ws-connlist') and (
+            eio not in ('4', 'absent') or j not in ('absent', 'x') or cfg.endswith('-str')):
         return False            # the odd-header kinds vary sid, transport and configuration
     if cfg.startswith('polling') and sidk in ('live-upgraded', 'mid-upgrade'):
         return False
@@ -68,6 +70,8 @@ def feasible(c):
 
 def ref_admission(c):
     """-> ('refuse', {statuses}, why) | ('admit',) | ('open', why)"""
+    if c[4] == 'ws-connlist':
+        return ref_admission(c[:4] + ('ws',) + c[5:])
     if c[4] in ODD:
         # such a request is either an ordinary GET or an upgrade request: certain only where
         # both readings agree
@@ -215,9 +219,11 @@ def check_cell(c, ctx=None):
         skip = (1,) if sidk in ('closed', 'rejected') else ()
         before = snapshot(ex, skip)
         q = build_query(c, sid)
-        isws = kind == 'ws' or (kind in ODD and impl == 'thread')
+        isws = kind in ('ws', 'ws-connlist') or (kind in ODD and impl == 'thread')
         if kind == 'ws':
             r = ex.world.ws_open(q, headers=[('Host', 'localhost')])
+        elif kind == 'ws-connlist':
+            r = ex.world.ws_open(q, headers=[('Host', 'localhost')], upgrade_hdrs=CONNLIST)
         elif kind in ODD and impl == 'thread':
             # a WSGI gateway with WebSocket support can upgrade any GET the application chooses
             r = ex.world.ws_open(q, headers=[('Host', 'localhost')], upgrade_hdrs=ODD[kind])
@@ -233,12 +239,14 @@ def check_cell(c, ctx=None):
             done = True
         else:
             status, done = r.status, r.done
-        if kind in ODD and cfg.startswith('polling') and (
+        # (an ASGI websocket scope that is answered as a polling open gets 'websocket.accept' from
+        # the driver without any transport being used: open cell, see ref_admission)
+        if (kind in ODD or (kind != 'http' and sidk != 'absent')) and cfg.startswith('polling') and (
                 getattr(r, 'accepted', False) or getattr(r, 'ws_attempt', False)):
             raise V(impl, 'inadmissible-websocket-accepted',
                     'WS|sid=%s|transport-not-allowed|%s' % (sidk, kind),
                     'cell %s: the server spoke WebSocket although transports=polling '
-                    '(query %r, headers %r)' % (c, q, ODD[kind]), rep)
+                    '(query %r, request kind %s)' % (c, q, kind), rep)
         trig = '%s|sid=%s|%s' % (method if kind == 'http' else 'WS', sidk,
                                  '+'.join(ref[2]) if ref[0] == 'refuse' else ref[0])
         if ref[0] == 'refuse':
